@@ -27,7 +27,7 @@ fn sample_stats(net: &mut Net, c: usize) {
 	}
 }
 
-fn scenario(rng: &mut Rng, steps: usize, async_persist: bool, with_disc: bool, with_fee: bool, tiny_push: bool) -> (Net, Vec<String>) {
+fn scenario(rng: &mut Rng, steps: usize, async_persist: bool, with_disc: bool, with_fee: bool, tiny_push: bool, with_restart: bool) -> (Net, Vec<String>) {
 	let mut viol: Vec<String> = vec![];
 	let mut at_limit: Vec<(usize, &'static str, u64, bool)> = vec![]; // (payment, which bound, amount, raced: the peer had / later originated HTLCs the sender could not know when it read the limit)
 	let mut user_failed: Vec<usize> = vec![];
@@ -61,6 +61,16 @@ fn scenario(rng: &mut Rng, steps: usize, async_persist: bool, with_disc: bool, w
 			net.reconnect(0, 1); net.trace.push(Obs::Event { node: 0, text: "RECONNECT".into() });
 			for _ in 0..6 { if let Some((i, j)) = net.any_queued() { net.deliver(i, j); } }
 			net.sample_balances(c); sample_stats(&mut net, c); continue;
+		}
+		// C01 (seeded C01-r5): a node is persisted NOW (ChannelManager + monitors), crashes and comes back from exactly that, between any
+		// two protocol messages; the peer sees a disconnection. `restart_from` pushes the RESTARTED marker (op `restart x` of the model).
+		if with_restart && rng.chance(1, 10) {
+			let i = rng.below(2) as usize;
+			if net.pending_updates(i, c).is_empty() && !net.in_progress[i] {
+				if let Err(e) = net.restart(i) { viol.push(format!("node {} could not be reloaded from what it had just persisted: {}", i, e)); }
+				net.process_events(i);
+				net.sample_balances(c); sample_stats(&mut net, c); continue;
+			}
 		}
 		if with_disc && rng.chance(1, 14) { if linked { net.disconnect(0, 1); net.trace.push(Obs::Event { node: 0, text: "DISCONNECT".into() }); } else { net.reconnect(0, 1); net.trace.push(Obs::Event { node: 0, text: "RECONNECT".into() }); } net.sample_balances(c); sample_stats(&mut net, c); continue; }
 		// (only at a quiet moment: timer ticks while a response is outstanding would trip the peer-unresponsive disconnect timer)
@@ -1115,6 +1125,127 @@ fn coop_close(net: &mut Net, c: usize, rng: &mut Rng) -> Option<(String, String,
 	Some((op, ans, viol, class))
 }
 
+/// C01 (seeded change C01-r5): RESTART IN EVERY WINDOW. One of seven short protocol scripts is started on two honest nodes
+/// (node 0 = funder of a 1 000 000 sat channel, 400 000 sat pushed), `k` of its messages are delivered one at a time (oldest first,
+/// the 0 -> 1 stream preferred), then node `who` is persisted (ChannelManager + monitors as they are right now) and reloaded from
+/// exactly that (`impl Writeable for FundedChannel` / `ReadableArgs`), `action` happens while the peers are disconnected (0 nothing;
+/// 1 the claimable payment is claimed: the claim waits in the holding cell and leaves with a commitment_signed of its own right inside
+/// channel_reestablish; 2 it is failed back; 3 the restarted node sends an HTLC of its own), the peers reconnect and everything is
+/// delivered (`first`: which direction is drained first, so that retransmissions and fresh updates cross in both orders).
+///   script 0: payment 0 -> 1 claimable, funder's update_fee (253 -> f2) + commitment_signed      1: payment 1 -> 0 claimable, same fee update
+///   script 2: update_add_htlc 0 -> 1 + commitment_signed     3: payment 0 -> 1 claimable and claimed: update_fulfill_htlc + commitment_signed
+///   script 5 / 6: payment 0 -> 1 claimable, the fundee's update_add_htlc + commitment_signed cross the funder's update_fee + commitment_signed
+///   (window delivery prefers the 0 -> 1 / the 1 -> 0 stream): the fee update waits AwaitingRemoteRevokeToAnnounce on the fundee
+///   script 4: payment 1 -> 0 claimable, funder's update_fee + commitment_signed in flight and an update_add_htlc 0 -> 1 queued behind it
+/// What the writer must drop / rewind for updates the peer announced but never committed (RemoteAnnounced inbound HTLCs and the
+/// `next_counterparty_htlc_id` rewind, a fundee's RemoteAnnounced `pending_update_fee`, RemoteRemoved -> Committed) and what it must keep
+/// (holding cell, LocalAnnounced / AwaitingRemoteRevoke state for retransmission) decides whether the two nodes still build the same
+/// commitment afterwards. Oracle (implementation only): honest operation never ends in a protocol error / closure, both nodes end at
+/// the same feerate, settled balances add up to the channel value, every payment reaches a terminal event, and the channel still
+/// carries a payment each way. Returns Ok(None) when the script has fewer than `k` messages.
+fn restart_window_run(script: u8, k: usize, who: usize, action: u8, first: usize, f2: u32) -> Option<Result<(String, Vec<String>), String>> {
+	let cfg = Some(lightning::ln::functional_test_utils::test_default_channel_config());
+	let mut net = Net::new(2, vec![cfg.clone(), cfg]);
+	let c = net.open(0, 1, 1_000_000, 400_000_000);
+	let mut viol = vec![];
+	let bump = |net: &mut Net| { for i in 0..2 { *net.nodes[i].fee_estimator.sat_per_kw.lock().unwrap() = f2; } net.nodes[0].node.timer_tick_occurred(); net.pump(0); };
+	// the payment that is claimable (and not yet claimed) when the node restarts, if the script has one
+	let mut claimable: Option<usize> = None;
+	match script {
+		0 => { let p = net.send(&[0, 1], &[c], 30_000_000, 80).ok()?; net.settle(8); claimable = Some(p); bump(&mut net); },
+		1 => { let p = net.send(&[1, 0], &[c], 30_000_000, 80).ok()?; net.settle(8); claimable = Some(p); bump(&mut net); },
+		2 => { net.send(&[0, 1], &[c], 30_000_000, 80).ok()?; },
+		3 => { let p = net.send(&[0, 1], &[c], 30_000_000, 80).ok()?; net.settle(8); net.claim(p); net.process_events(1); },
+		4 => { let p = net.send(&[1, 0], &[c], 20_000_000, 80).ok()?; net.settle(8); claimable = Some(p);
+			for i in 0..2 { *net.nodes[i].fee_estimator.sat_per_kw.lock().unwrap() = f2; }
+			net.nodes[0].node.timer_tick_occurred(); net.send(&[0, 1], &[c], 30_000_000, 80).ok()?; },
+		// crossing updates: the fundee's own update_add_htlc + commitment_signed are in flight (it is AwaitingRemoteRevoke) when the funder's
+		// update_fee + commitment_signed arrive, so the fee update stays AwaitingRemoteRevokeToAnnounce on the fundee for a while
+		_ => { let p = net.send(&[0, 1], &[c], 30_000_000, 80).ok()?; net.settle(8); claimable = Some(p);
+			net.send(&[1, 0], &[c], 20_000_000, 80).ok()?; bump(&mut net); },
+	}
+	if let Some(p) = claimable { if !net.claimable[net.pays[p].to].iter().any(|x| x.0 == net.pays[p].hash) { return Some(Err("set-up: payment not claimable".into())); } }
+	let mut window = vec![];
+	for _ in 0..k {
+		// scripts 0..5 prefer the 0 -> 1 stream inside the window, script 6 (= script 5's set-up) the 1 -> 0 stream
+		let pf = if script == 6 { 1 } else { 0 };
+		let dir = if net.queued(pf, 1 - pf) > 0 { (pf, 1 - pf) } else if net.queued(1 - pf, pf) > 0 { (1 - pf, pf) } else { std::mem::forget(net); return None; };
+		match net.deliver(dir.0, dir.1) { Some(kind) => window.push(format!("{}>{}:{}", dir.0, dir.1, kind)), None => { std::mem::forget(net); return None; } }
+	}
+	let next = if net.queued(0, 1) > 0 { net.q[&(0, 1)].front().map(|w| format!("0>1:{}", w.kind())) } else { net.q.get(&(1, 0)).and_then(|q| q.front()).map(|w| format!("1>0:{}", w.kind())) }.unwrap_or("quiet".into());
+	let desc = format!("restart-window script {} (f2 {}): node {} ({}) persisted + reloaded after [{}] (next undelivered: {}), while disconnected: {}, after reconnect the {}>{} stream first",
+		script, f2, who, if who == 0 { "funder" } else { "fundee" }, window.join(" "), next,
+		match action { 0 => "nothing", 1 => "the claimable payment is claimed (holding cell)", 2 => "the claimable payment is failed back (holding cell)", _ => "the restarted node sends an HTLC (holding cell)" }, first, 1 - first);
+	let class = format!("restartwin:s{}:{}:{}:a{}", script, if who == 0 { "funder" } else { "fundee" }, next.split(':').nth(1).unwrap_or("quiet"), action);
+	if let Err(e) = net.restart(who) { std::mem::forget(net); return Some(Ok((class, vec![format!("{}: the persisted node could not be reloaded: {}", desc, e)]))); }
+	net.process_events(who);
+	match (action, claimable) {
+		(1, Some(p)) => { net.claim(p); let to = net.pays[p].to; net.process_events(to); },
+		(2, Some(p)) => { net.fail_back(p); let to = net.pays[p].to; net.forward(to); net.process_events(to); },
+		(3, _) => { let _ = net.send(&[who, 1 - who], &[c], 5_000_000, 80); net.process_events(who); },
+		(0, _) => {},
+		_ => { std::mem::forget(net); return None; }, // nothing claimable in this script
+	}
+	net.reconnect(0, 1);
+	for _ in 0..60 {
+		let dir = if net.queued(first, 1 - first) > 0 { (first, 1 - first) } else if net.queued(1 - first, first) > 0 { (1 - first, first) } else { break };
+		net.deliver(dir.0, dir.1);
+		for i in 0..2 { if net.nodes[i].node.needs_pending_htlc_processing() { net.forward(i); } net.process_events(i); }
+	}
+	net.settle(10);
+	// claim what is still claimable, and let everything complete
+	for p in 0..net.pays.len() { let to = net.pays[p].to; let h = net.pays[p].hash; if net.claimable[to].iter().any(|x| x.0 == h) && !net.events[to].iter().any(|e| matches!(e, lightning::events::Event::PaymentClaimed { payment_hash, .. } if *payment_hash == h)) && !(action == 2 && claimable == Some(p)) { net.claimable[to].retain(|x| x.0 != h); net.claim(p); } }
+	net.settle(10);
+	let first_err = net.trace.iter().find_map(|o| if let Obs::ProtoError { node, text } = o { Some(format!("node {}: {}", node, text.chars().take(220).collect::<String>())) } else { None });
+	if let Some(e) = &first_err { viol.push(format!("{}: honest operation ended in a protocol error: {}", desc, e)); }
+	if !net.closed.is_empty() { viol.push(format!("{}: honest operation ended in a closure: {:?}", desc, net.closed)); }
+	if first_err.is_none() && net.closed.is_empty() {
+		let d: Vec<_> = (0..2).map(|i| net.nodes[i].node.list_channels()).collect();
+		if d[0].len() != 1 || d[1].len() != 1 || !d[0][0].is_usable || !d[1][0].is_usable { viol.push(format!("{}: the channel is not usable on both sides afterwards", desc)); }
+		else {
+			if d[0][0].feerate_sat_per_1000_weight != d[1][0].feerate_sat_per_1000_weight { viol.push(format!("{}: the two nodes end at different feerates: {:?} vs {:?}", desc, d[0][0].feerate_sat_per_1000_weight, d[1][0].feerate_sat_per_1000_weight)); }
+			let pend = d[0][0].pending_inbound_htlcs.len() + d[0][0].pending_outbound_htlcs.len() + d[1][0].pending_inbound_htlcs.len() + d[1][0].pending_outbound_htlcs.len();
+			let cid = net.chans[c].2;
+			let v0 = lightning::ln::verif_hooks::channel_value_to_self_msat(net.nodes[0].node, &net.ids[1], &cid);
+			let v1 = lightning::ln::verif_hooks::channel_value_to_self_msat(net.nodes[1].node, &net.ids[0], &cid);
+			if pend != 0 { viol.push(format!("{}: {} HTLC entries are still pending after everything was delivered and claimed", desc, pend)); }
+			else if let (Some(v0), Some(v1)) = (v0, v1) { if v0 + v1 != 1_000_000_000 { viol.push(format!("{}: settled balances {} + {} != channel value", desc, v0, v1)); } }
+			// the channel still works in both directions
+			for (a, b) in [(0usize, 1usize), (1, 0)] {
+				match net.send(&[a, b], &[c], 1_000_000, 80) {
+					Ok(p) => { net.settle(10); net.claim(p); net.settle(10); let h = net.pays[p].hash;
+						if !net.events[a].iter().any(|e| matches!(e, lightning::events::Event::PaymentSent { payment_hash, .. } if *payment_hash == h)) {
+							let e = net.trace.iter().find_map(|o| if let Obs::ProtoError { node, text } = o { Some(format!("node {}: {}", node, text.chars().take(200).collect::<String>())) } else { None }).unwrap_or_default();
+							viol.push(format!("{}: a later payment {} -> {} did not complete {}", desc, a, b, e)); } },
+					Err(e) => viol.push(format!("{}: a later payment {} -> {} was refused: {}", desc, a, b, e)),
+				}
+			}
+		}
+	}
+	std::mem::forget(net);
+	Some(Ok((class, viol)))
+}
+
+/// the whole family: every script x every window x both nodes x every applicable action x both delivery orders (quick: one order per run, alternating)
+fn probe_restart_windows(thorough: bool, rec: &mut Rec) {
+	let mut n = 0u64;
+	for script in 0..7u8 { for who in 0..2usize { for action in 0..4u8 { for k in 0..14usize {
+		let orders: &[usize] = if thorough { &[0, 1] } else if (k + action as usize + who) % 2 == 0 { &[1] } else { &[0] };
+		let mut exhausted = false;
+		for &first in orders {
+			let f2 = if (script as usize + k) % 2 == 0 { 453 } else { 1200 };
+			match guarded(std::panic::AssertUnwindSafe(|| restart_window_run(script, k, who, action, first, f2))) {
+				Ok(Some(Ok((class, viol)))) => { n += 1; *rec.classes.entry(class).or_insert(0) += 1; for v in viol { rec.oracle_fail(v); } },
+				Ok(Some(Err(e))) => rec.oracle_fail(format!("restart-window probe (script {}, k {}, node {}, action {}) could not be set up: {}", script, k, who, action, e)),
+				Ok(None) => { exhausted = true; },
+				Err(p) => rec.oracle_fail(format!("restart-window probe (script {}, after {} messages, node {} restarted, action {}, order {}) panicked: {}", script, k, who, action, first, p.chars().take(240).collect::<String>())),
+			}
+		}
+		if exhausted { break; }
+	} } } }
+	*rec.classes.entry("probe:restart-windows:ran".into()).or_insert(0) += n;
+}
+
 fn nm(i: usize) -> &'static str { if i == 0 { "a" } else { "b" } }
 
 fn main() {
@@ -1171,6 +1302,7 @@ fn main() {
 	}
 	// the deterministic replay of KF-C01-1 belongs to property C01 only
 	if args.model == "chan" && std::env::var("VERIF_PROPERTY").map(|p| p == "C01").unwrap_or(true) {
+		probe_restart_windows(args.thorough, &mut rec);
 		{ let (viol, ran, fee_sent) = probe_holding_cell_fee_and_add(); for v in viol { rec.oracle_fail(v); } *rec.classes.entry("probe:holding-cell-fee+add:ran".into()).or_insert(0) += ran; *rec.classes.entry("probe:holding-cell-fee+add:update_fee-survived".into()).or_insert(0) += fee_sent; }
 		match guarded(std::panic::AssertUnwindSafe(probe_fundee_limit)) { Ok(Some(m)) => rec.oracle_fail(m), Ok(None) => { rec.notes.insert("kf_c01_1".into(), "probe did not reproduce KF-C01-1 on this tree".into()); }, Err(p) => rec.oracle_fail(format!("fundee-limit probe panicked: {}", p.chars().take(200).collect::<String>())) }		match guarded(std::panic::AssertUnwindSafe(probe_holding_cell_claim_then_add)) { Ok(Some(m)) => rec.oracle_fail(m), Ok(None) => { rec.notes.insert("kf_c01_2".into(), "probe did not reproduce KF-C01-2 on this tree".into()); }, Err(p) => rec.oracle_fail(format!("holding-cell probe panicked: {}", p.chars().take(200).collect::<String>())) }
 	}
@@ -1187,7 +1319,7 @@ fn main() {
 		// fee scenarios (update_fee in flight, asymmetric reserves): implementation-side oracles only, the Lean models have no fee updates
 		let with_fee = sc % 6 == 4 || sc % 6 == 1;
 		let mut sub = Rng::new(rng.next());
-		let mut net = match guarded(std::panic::AssertUnwindSafe(|| scenario(&mut sub, steps, async_persist, with_disc, with_fee, tiny_push))) {
+		let mut net = match guarded(std::panic::AssertUnwindSafe(|| scenario(&mut sub, steps, async_persist, with_disc, with_fee, tiny_push, c01_chan && sc % 3 == 2))) {
 			// the send-limit exactness oracles state C01's last sentence: they are reported under C01 only
 			Ok((n, viol)) => { let c01 = std::env::var("VERIF_PROPERTY").map(|p| p == "C01").unwrap_or(true); for v in viol { if c01 || !v.contains("limit") { rec.oracle_fail(format!("scenario {}: {}", sc, v)); } } n },
 			Err(p) => { rec.oracle_fail(format!("scenario {} (seed {}, async={}) panicked: {}", sc, args.seed, async_persist, p.chars().take(200).collect::<String>())); continue; },
@@ -1305,6 +1437,8 @@ fn main() {
 					},
 					// disconnection (marker pushed by scenario()): everything queued is lost, both nodes pause the channel
 					Obs::Event { node: 0, text } if text == "DISCONNECT" => rec.case("disconnect", "ok", "disconnect", true),
+					// a node was persisted and reloaded (marker pushed by Net::restart_from): the model applies write + read to it (`Node.written`)
+					Obs::Event { node, text } if text == "RESTARTED" && c01_chan => rec.case(&format!("restart {}", nm(*node)), "ok", "restart", true),
 					// a node processes the peer's channel_reestablish (its retransmissions follow as release / raa ops)
 					Obs::Delivered { to, kind: "reestablish", chan: 0, errors, .. } => rec.case(&format!("reest {}", nm(*to)), if *errors == 0 { "ok" } else { "ERROR" }, "reest", true),
 					_ => {},
